@@ -192,3 +192,111 @@ theorem processRow_nodup (dl : Str) (key : List (Str × List Str)) (cells : List
     · cases h
 
 end Pyxv.Binds
+
+namespace Pyxv.Binds
+open Pyxv
+
+/-! ### the walk -/
+
+theorem nodup_of_map {α β} (f : α → β) (l : List α) (h : (l.map f).Nodup) : l.Nodup :=
+  List.Pairwise.of_map f (fun _ _ hne e => hne (congrArg f e)) h
+
+theorem mkElem_last (root : Str) (st : List (Str × Bool)) (q : Q) :
+    (mkElem root st q).path.getLast? = some q.name := by
+  show (root :: ((st.map (·.1)).reverse ++ [q.name])).getLast? = some q.name
+  rw [← List.cons_append, List.getLast?_concat]
+
+/-- the elements the walk emits are, in order, the names the rows introduce -/
+theorem walk_lasts (root : Str) : ∀ (ks : List RK) (st : List (Str × Bool)) (es : List Elem),
+    walk root st ks = some es → es.map (fun e => e.path.getLast?) = (ks.flatMap rkNames).map some := by
+  intro ks
+  induction ks with
+  | nil =>
+    intro st es h
+    unfold walk at h
+    split at h
+    · simp only [Option.some.injEq] at h; subst h; rfl
+    · cases h
+  | cons k rest ih =>
+    intro st es h
+    cases k with
+    | skip =>
+      unfold walk at h
+      simpa [rkNames] using ih st es h
+    | qs l =>
+      unfold walk at h
+      cases hr : walk root st rest with
+      | none => rw [hr] at h; cases h
+      | some es' =>
+        rw [hr] at h
+        simp only [Option.map_some, Option.some.injEq] at h
+        subst h
+        simp only [List.map_append, List.map_map, List.flatMap_cons, rkNames, ih st es' hr]
+        congr 1
+        apply List.map_congr_left
+        intro q _
+        exact mkElem_last root st q
+    | begin_ rep pre q =>
+      unfold walk at h
+      cases hr : walk root ((q.name, rep) :: st) rest with
+      | none => rw [hr] at h; cases h
+      | some es' =>
+        rw [hr] at h
+        simp only [Option.map_some, Option.some.injEq] at h
+        subst h
+        simp only [List.map_append, List.map_map, List.flatMap_cons, rkNames, ih _ es' hr,
+          List.map_cons, List.map_nil]
+        congr 1
+        congr 1
+        · apply List.map_congr_left
+          intro q' _
+          exact mkElem_last root st q'
+        · simp only [Function.comp, mkElem_last]
+    | end_ rep =>
+      cases st with
+      | nil => unfold walk at h; cases h
+      | cons f st' =>
+        obtain ⟨n, rep'⟩ := f
+        unfold walk at h
+        split at h
+        · simpa [rkNames] using ih st' es h
+        · cases h
+    | unsupported w => unfold walk at h; cases h
+
+theorem renderAll_paths (root : Str) (tops : List Str) :
+    ∀ (es : List Elem) (bs : List Bind), renderAll root tops es = some bs →
+      (bs.map (·.path)).Sublist (es.map (·.path)) := by
+  intro es
+  induction es with
+  | nil => intro bs h; simp only [renderAll, Option.some.injEq] at h; subst h; simp
+  | cons e rest ih =>
+    intro bs h
+    unfold renderAll at h
+    split at h
+    · cases h
+    · next ob hx =>
+      split at h
+      · cases h
+      · next bs' hr =>
+        simp only [Option.some.injEq] at h
+        subst h
+        have := ih bs' hr
+        cases ob with
+        | none => exact this.cons _
+        | some b =>
+          have hp : b.path = e.path := by
+            unfold xmlBind at hx
+            split at hx
+            · cases hx
+            · split at hx
+              · cases hx
+              · cases ha : attrsOf root tops (Form.xpathStr e.path) e.q.trigger _ with
+                | none => rw [ha] at hx; cases hx
+                | some a =>
+                  rw [ha] at hx
+                  simp only [Option.map_some, Option.some.injEq] at hx
+                  rw [← hx]
+          simp only [List.map_cons, hp]
+          exact this.cons_cons _
+
+end Pyxv.Binds
